@@ -60,25 +60,23 @@ class ScriptedDNS:
         me = self
 
         # an implementation that builds its own Resolver object asks the same question: script that path too
-        def m_resolve(self_, qname, rdtype="A", *a, **k):
-            search = k.get("search")
+        def m_resolve(self_, qname, rdtype="A", rdclass="IN", tcp=False, source=None, raise_on_no_answer=True, source_port=0, lifetime=None, search=None):
             me.queries.append(("sync", str(qname), str(getattr(rdtype, "name", rdtype)), self_.use_search_by_default if search is None else search))
             return me.make(str(qname))
 
-        async def m_aresolve(self_, qname, rdtype="A", *a, **k):
-            search = k.get("search")
+        async def m_aresolve(self_, qname, rdtype="A", rdclass="IN", tcp=False, source=None, raise_on_no_answer=True, source_port=0, lifetime=None, search=None, backend=None):
             me.queries.append(("async", str(qname), str(getattr(rdtype, "name", rdtype)), self_.use_search_by_default if search is None else search))
             return me.make(str(qname))
 
         dns.resolver.Resolver.resolve = m_resolve
         dns.asyncresolver.Resolver.resolve = m_aresolve
 
-        def resolve(qname, rdtype="A", *a, **k):
-            me.queries.append(("sync", str(qname), str(getattr(rdtype, "name", rdtype)), k.get("search")))
+        def resolve(qname, rdtype="A", rdclass="IN", tcp=False, source=None, raise_on_no_answer=True, source_port=0, lifetime=None, search=None):
+            me.queries.append(("sync", str(qname), str(getattr(rdtype, "name", rdtype)), search))
             return me.make(str(qname))
 
-        async def aresolve(qname, rdtype="A", *a, **k):
-            me.queries.append(("async", str(qname), str(getattr(rdtype, "name", rdtype)), k.get("search")))
+        async def aresolve(qname, rdtype="A", rdclass="IN", tcp=False, source=None, raise_on_no_answer=True, source_port=0, lifetime=None, search=None, backend=None):
+            me.queries.append(("async", str(qname), str(getattr(rdtype, "name", rdtype)), search))
             return me.make(str(qname))
 
         dns.resolver.resolve = resolve
